@@ -82,10 +82,11 @@ def cs_overlap3_cfgs():
     for pol in ("LRU", "LFU", "Clock"):
         for wt in (True, False):
             for cap in (1, 2):
-                out.append({"driver": "cs-overlap3", "sys": "cs", "pol": pol, "wt": wt, "cap": cap, "lat": "R4W2D3",
-                            "rseed": 1, "n_conc": 3, "span_half": 8, "step_half": 2,
-                            "alphabet": [("get", "a"), ("put", "a"), ("del", "a"), ("flush",), ("put", "b")],
-                            "prefixes": [[], [("put", "a")]]})
+                for lat in ("R4W2D3", "R2W4D1"):
+                    out.append({"driver": "cs-overlap3", "sys": "cs", "pol": pol, "wt": wt, "cap": cap, "lat": lat,
+                                "rseed": 1, "n_conc": 3, "span_half": 8, "step_half": 2,
+                                "alphabet": [("get", "a"), ("put", "a"), ("del", "a"), ("flush",), ("put", "b")],
+                                "prefixes": [[], [("put", "a")]]})
     return out
 
 
@@ -163,6 +164,10 @@ def _absorb(run, d, results, states_key="states"):
             d.exhaustive = False
             d.caps.append(f"max_seconds in {st['cfg']}")
         d.extra["unfinished_ops"] = d.extra.get("unfinished_ops", 0) + st.get("unfinished", 0)
+        if "closed" in st:
+            d.extra["configs_whose_state_space_closed_below_depth_bound"] = \
+                d.extra.get("configs_whose_state_space_closed_below_depth_bound", 0) + int(st["closed"])
+            d.extra["deepest_level_explored"] = max(d.extra.get("deepest_level_explored", 0), len(st["levels"]))
         for fp, (desc, rep) in st["viol"].items():
             run.violation(fp, desc, rep)
         if len(d.samples) < 3:
